@@ -217,7 +217,7 @@ class ArgsFormatBuilder(object):
         arguments = self.get_arguments(include_base)
 
         if isinstance(name, int):
-            return name < len(arguments)
+            return 0 <= name < len(arguments)
 
         return name in arguments
 
